@@ -5,6 +5,8 @@ every component slice handed to the string constructors has a non-negative lengt
 and no local (the protocol / service lookup results) is read on a path on which it was never assigned, whatever
 the lookups return (found / not found are both explored).  W1/W2: parse and unparse agree on the component table, and every component that is present is emitted on every path
 (must-analysis over the nullness facts).  Component exactness and the round trip are not decided."""
+import re
+
 from .. import facts, expr as X
 from .. import nullness, flow
 from ..facts import walk
@@ -259,6 +261,23 @@ def run(tier="quick"):
                                      kinds={"lower", "upper", "null", "count", "cursor", "freed", "slice"})
     nund += nund_c
     check_unparse(chk, prog)
+    # G1 the text of a URL reaches the embedded string through str.c's initialisers: those refuse a NULL text softly (REQUIRE),
+    # never by an assertion - the text of an empty string object IS a NULL pointer, and the empty byte string is a legitimate
+    # URL text at every debug level and in every build (C01's B3, applied to the functions the URL constructors call)
+    from . import C01 as _C01
+    chk.rule("B3", "the string initialisers the URL constructors call refuse a NULL text softly (REQUIRE), not by ASSERT")
+    callees = []
+    for f in ctor_fns + [g for g in u.functions.values() if g.body is not None and re.search(r"_(init_from|new_from|dup)", g.name)]:
+        for c in X.calls_in(f.body):
+            g = prog.fn(X.callee_name(c) or "")
+            if g is not None and g.unit.name == "str.c" and g.body is not None and g not in callees:
+                callees.append(g)
+                for c2 in X.calls_in(g.body):
+                    h = prog.fn(X.callee_name(c2) or "")
+                    if h is not None and h.unit.name == "str.c" and h.body is not None and h not in callees:
+                        callees.append(h)
+    chk.count("string_initialisers_on_the_url_path", len(callees), floor=2)
+    _C01.check_soft_guards(chk, prog, callees)
     chk.rule("N4", "the constructors whose result is handed to a protocol/service lookup return objects that carry text")
     check_lookup_names(chk, prog)
     parse = prog.need("spif_url_parse")
